@@ -332,6 +332,12 @@ Proof.
 Qed.
 
 End Machine.
+Arguments Halt {Q}.
+Arguments Advance {Q}.
+Arguments Save {Q}.
+Arguments Ask {Q}.
+Arguments OutVal {Q}.
+Arguments OutPos {Q}.
 
 (* ====================================================================== *)
 (* 3. connection with the lexer theorems, examples                          *)
@@ -417,7 +423,7 @@ Definition toy (q : nat) : act nat :=
   | 4 => OutVal 0 5
   | 5 => Advance 6
   | 6 => Ask OSamePos 0 (fun a => match a with [1%N] => 9 | _ => 0 end)
-  | _ => Halt nat
+  | _ => Halt
   end.
 
 Lemma toy_ok : prog_ok nat toy.
@@ -433,7 +439,7 @@ Definition toks_of (bs : list N) : list item :=
   match tokenize bs with Some its => parser_tokens its | None => [] end.
 
 Example toy_same_run :
-  Forall2 (ev_rel nat) (run nat toy 40 (toks_of txt1) 0 0 0) (run nat toy 40 (toks_of txt2) 0 0 0).
+  Forall2 ev_rel (run nat toy 40 (toks_of txt1) 0 0 0) (run nat toy 40 (toks_of txt2) 0 0 0).
 Proof.
   apply runs_indistinguishable.
   - apply sim_of_sigs. vm_compute. reflexivity.
@@ -447,7 +453,7 @@ Qed.
 Definition nosy (q : nat) : act nat :=
   match q with
   | 0 => Ask OLine 0 (fun a => 1)
-  | _ => Halt nat
+  | _ => Halt
   end.
 
 Example nosy_distinguishes :
@@ -455,6 +461,7 @@ Example nosy_distinguishes :
 Proof. vm_compute. discriminate. Qed.
 
 (* the checker is not vacuous: each kind of mutation of the inventory is rejected *)
+Local Open Scope string_scope.
 Example reject_other :
   check_pos_reads [("parser|Parser.parseX|p.peek.Pos.Line", "other", 1%N)] allowed_spaced [] = false.
 Proof. reflexivity. Qed.
